@@ -7,7 +7,10 @@
    frames and "break" after the first narrow-phase hit. *)
 EXTENDS Bvh, TLC
 
-CONSTANT N
+CONSTANTS N,
+          CandChoice     \* "all": every broad-phase superset of the colliding frames; "hit": the colliding frames only (detect reads
+                         \* the candidates only through (cand \ whitelist) /\ hit, which does not depend on the superset - for N = 4
+                         \* the supersets would multiply the 6.3 million configurations by up to 65536 without adding a behaviour)
 Frames == 1..N
 VARIABLES order, hit, wl, cand, phase
 vars == <<order, hit, wl, cand, phase>>
@@ -22,7 +25,8 @@ ChooseHit == phase = "hit" /\ hit' \in SymRel /\ phase' = "wl" /\ UNCHANGED <<or
 ChooseWl  == phase = "wl" /\ wl' \in { w \in [Frames -> SUBSET Frames] : \A F \in Frames : F \in w[F] } /\ phase' = "cand"
              /\ UNCHANGED <<order, hit, cand>>
 (* broad phase candidates: a superset of the colliding frames (AABB overlap is necessary for collision) *)
-ChooseCand == phase = "cand" /\ cand' \in { b \in [Frames -> SUBSET Frames] : \A F \in Frames : hit[F] \subseteq b[F] } /\ phase' = "done"
+ChooseCand == phase = "cand" /\ phase' = "done"
+              /\ cand' \in (IF CandChoice = "hit" THEN {hit} ELSE { b \in [Frames -> SUBSET Frames] : \A F \in Frames : hit[F] \subseteq b[F] })
               /\ UNCHANGED <<order, hit, wl>>
 Next == ChooseHit \/ ChooseWl \/ ChooseCand
 Spec == Init /\ [][Next]_vars
